@@ -14,6 +14,8 @@ from skeletons import docs as DOCS
 from skeletons import lists as L
 
 MODULE = "checks.c10"
+# a heading line under any container prefixes (quote marks, list markers, a footnote label)
+_HEADING_LINE = __import__("re").compile(r"^[ >]*(?:(?:[-*+]|\d+[.)])[ ]+|\[\^[^\]]+\]:[ ]+|[ >]+)*#")
 
 
 def cases(tier: str) -> list[dict[str, Any]]:
@@ -133,7 +135,7 @@ def run(env: Any, case: dict[str, Any]) -> Any:
         # byte level: only heading lines may differ
         lo, ln = off.split("\n"), on.split("\n")
         same_len = len(lo) == len(ln)
-        env.prove(same_len and all(a == b or a.lstrip(" >-").startswith("#") for a, b in zip(lo, ln)), "cleanups:only-heading-lines", {"off": off, "on": on})
+        env.prove(same_len and all(a == b or _HEADING_LINE.match(a) for a, b in zip(lo, ln)), "cleanups:only-heading-lines", {"off": off, "on": on})
         return [off, on]
     raise ValueError(case["kind"])
 
